@@ -382,6 +382,7 @@ func genCase(t *rapid.T) Case {
 	}
 	c.JSONEsc = []int{0, 0, 1, 2}[rapid.IntRange(0, 3).Draw(t, "jsonesc")]
 	c.E2E = rapid.IntRange(0, 63).Draw(t, "e2e") == 63
+	c.Bin = os.Getenv("C11_BIN") != "" // the campaign through the real executable
 	c.Reload = rapid.IntRange(0, 7).Draw(t, "reload") == 7
 	return c
 }
